@@ -6,7 +6,7 @@ Import ListNotations.
 Local Open Scope R_scope.
 
 Ltac red5 :=
-  unfold mie_holo_px, mielens_holo_px, mie_assemble, tmatrix_assemble, tm_postfactor, mielens_assemble,
+  unfold mie_holo_px, mielens_holo_px, mie_assemble, mielens_assemble,
          mielens_assemble_plus, mielens_core, rel_minus, rel_plus, dbl, half, lens_assemble, lr_to_xyz,
          lens_term, fieldstocart, radial_to_cart, calc_scat_field, incfield, crotz, cmir_y, cmir_x, cvneg,
          cneg, csub, c0, rotz, rot2, mir_y, mir_x, vshift, sph_args, cyl_args, position, holo_px, cv_mul, cv_add,
@@ -172,17 +172,6 @@ Proof.
   - destruct (mie_mirror_sphere s1 s2 pref erad ct st cp sp py) as (_ & B & _ & D). rewrite B, D.
     destruct (mie_assemble RO (sphere_S s1 s2) pref erad ct st cp sp (0, py)) as [[ex ey] ez].
     unfold cvneg, cmir_x, cmir_y. split; apply holo_px_flip_x; try reflexivity. apply cneg_invol.
-Qed.
-
-(** T-matrix: the postfactor undoes incfield for the fixed polarisation (1,0): the field is the first column of
-    the returned matrix, E_theta = pref*m11, E_phi = -pref*m21, whatever phi *)
-Lemma tmatrix_postfactor_collapse (M : smat R) (pref : cR) ct st cp sp :
-  cp * cp + sp * sp = 1 ->
-  tmatrix_assemble RO M pref ct st cp sp =
-  let '(m11, m12, m21, m22) := M in
-  fieldstocart RO (cmul RO pref m11, cneg RO (cmul RO pref m21)) ct st cp sp.
-Proof.
-  destruct M as [[[[a1 b1] [a2 b2]] [a3 b3]] [a4 b4]], pref as [pr pi]. intros H. red5. tup; nsatz.
 Qed.
 
 (** * 4. MieLens *)
@@ -522,7 +511,7 @@ Definition cQ2R (a : cplx Q) : cR := (Q2R (fst a), Q2R (snd a)).
 Definition cvQ2R (E : cvec3 Q) : cvR := let '(ex, ey, ez) := E in (cQ2R ex, cQ2R ey, cQ2R ez).
 Definition sQ2R (S : smat Q) : smat R := let '(s1, s2, s3, s4) := S in (cQ2R s1, cQ2R s2, cQ2R s3, cQ2R s4).
 Ltac redq :=
-  unfold mie_assemble, tmatrix_assemble, tm_postfactor, mielens_assemble, mielens_core, rel_minus, dbl, half,
+  unfold mie_assemble, mielens_assemble, mielens_core, rel_minus, dbl, half,
          lens_term, lr_to_xyz, fieldstocart, radial_to_cart, calc_scat_field, incfield, cneg, csub, c0,
          cv_add, cmul, cadd, cscale, cvQ2R, cQ2R, sQ2R;
   cbn [fst snd add mul sub opp inv zero one ofZ RO QO].
